@@ -745,6 +745,13 @@ fn build_metadata(r: &RefSpec) -> Option<Metadata> {
     r.metadata.map(|(a, b, c, d)| Metadata::new(vp(a), vp(b), c, d))
 }
 
+/// Number of reference sequences the index is built with: the generated 0..3, or — one case in
+/// sixteen — just beyond 65 536 (all the further ones empty): counts past the 16-bit range, which is
+/// where a reader that caps what it preallocates must not cap what it reads.
+fn built_refs(n_ref: u8, recs: &[SynRec]) -> usize {
+    if n_ref >= 1 && recs.len() % 16 == 7 { 65_536 + n_ref as usize } else { n_ref as usize }
+}
+
 fn sorted_syn(recs: &[SynRec], n_ref: u8) -> Vec<SynRec> {
     let mut v: Vec<SynRec> = recs.iter().filter(|r| (r.rid as usize) < n_ref as usize).cloned().collect();
     v.sort_by_key(|r| (r.rid, r.start));
@@ -796,7 +803,7 @@ fn linear_index_of(c: &RtCase, with_header: bool) -> Result<csi::binning_index::
             for _ in 0..*unplaced {
                 ix.add_record(None, Chunk::new(tail, tail)).map_err(|e| err1("c17.rt.indexer-error", format!("add_record(None): {e}")))?;
             }
-            Ok(ix.build(*n_ref as usize))
+            Ok(ix.build(built_refs(*n_ref, &recs)))
         }
     }
 }
@@ -848,7 +855,7 @@ fn csi_index_of(c: &RtCase, ms: u8, d: u8, with_header: bool) -> Result<csi::Ind
             for _ in 0..*unplaced {
                 ix.add_record(None, Chunk::new(tail, tail)).map_err(|e| err1("c17.rt.indexer-error", format!("add_record(None): {e}")))?;
             }
-            Ok(ix.build(*n_ref as usize))
+            Ok(ix.build(built_refs(*n_ref, &recs)))
         }
     }
 }
